@@ -16,12 +16,14 @@ package unack
 //@ ensures result1 == nil ==> result0 == old(s.$has[id])
 //@ ensures result1 == nil ==> (forall i uint16 :: s.$has[i] == (i == id || old(s.$has[i])))
 //@ ensures result1 != nil ==> (forall i uint16 :: s.$has[i] == old(s.$has[i]))
+//@ ensures result1.(type *codes.Error) ==> result1.(*codes.Error) != nil
 
 //@ func (Store).Remove
 //@ params s, id
 //@ modifies ghost(s.$has)
 //@ ensures result == nil ==> (forall i uint16 :: s.$has[i] == (i != id && old(s.$has[i])))
 //@ ensures result != nil ==> (forall i uint16 :: s.$has[i] == old(s.$has[i]))
+//@ ensures result.(type *codes.Error) ==> result.(*codes.Error) != nil
 
 //@ func (Store).Init
 //@ params s, cleanStart
